@@ -2,37 +2,41 @@ import VaxisModel.Lemmas.ConcProgress
 import VaxisModel.Lemmas.ConcFlag
 import VaxisModel.Model.ConcSession
 import VaxisModel.Witness.F53
+import VaxisModel.Witness.F13
 import VaxisModel.Gen.Conc
 
 /-!
 # C10 — shutdown completes, for every schedule
 
-Over the shutdown LTS of `Model/Conc.lean` (parser goroutine, input goroutine, callers of `Close` and
-of `Suspend`, `Resume`, the terminal, the application).  Real time is abstracted.
+Over the shutdown LTS of `Model/Conc.lean` (parser goroutine, input goroutines of the current and of
+earlier sessions, callers of `Close` and of `Suspend`, `Resume`, the terminal, the application), as
+the protocol is after the repairs of F13 and F53.  Real time is abstracted.
 
 * `variant_decreases` / `sched_runs_bounded`: a variant function strictly decreases on EVERY label a
   scheduler may pick, in every state: no schedule runs for ever, no fairness assumption is needed.
-* `shutdown_completes`: under the invariant `Inv` (a session in which `Close` is called by any number
-  of goroutines other than the input goroutine, `Suspend`/`Resume` by a sequential main goroutine;
-  a consumer that keeps receiving or room in the queue for what is in flight; no kill signal) EVERY
-  run of scheduler labels stays inside the invariant, and EVERY maximal one ends with all callers
-  returned, the parser and input goroutines done, `chQuit` closed exactly once.
-* `session_invariant`: the invariant holds along every history with any number of
-  Suspend/Resume cycles, frames of input and `Close` calls.
-* `quit_closed_once`: `chQuit` is closed at most once in every reachable state, with no hypothesis
-  (F33 repaired).
-* F13 (Close on the input goroutine) and F53 (no consumer and no room) are the two hypotheses of
-  `Inv` that the code does not guarantee; `shutdown_completes_full_fails`, `Witness/F13`, `F53`.
+* `shutdown_completes`: under the invariant `Inv` EVERY run of scheduler labels stays inside the
+  invariant, and EVERY maximal one ends with all callers returned, the parser goroutine done, every
+  input goroutine done once the session is closed, `chQuit` closed exactly once.  `Inv` has no
+  hypothesis about the event queue, the consumer, kill signals or the goroutine `Close` runs on:
+  a full queue nobody receives from (F53's region) and `Close` on an input goroutine — signal arm or
+  panic path — (F13's region) are covered.
+* `session_invariant`: the invariant holds along every history with any number of Suspend/Resume
+  cycles (a `Resume` while the previous input goroutine is still alive included), input, signals,
+  panics of an input goroutine and `Close` calls.
+* `quit_closed_once`: `chQuit` is closed at most once in every reachable state, with no hypothesis.
 * The two source facts the theorems need (`suspend_order`, `resume_clears`) are pinned to
-  `Gen/Conc.lean`; `order_matters` / `resume_must_clear` show the LTS is stuck / leaks without them.
+  `Gen/Conc.lean`; `order_matters` / `resume_must_clear` show the LTS is stuck / leaks without them;
+  `waitclose_drains`, `input_loop_leaves_on_closed_channel`, `blocking_post_selects_quit` pin the
+  three repaired shapes.
 -/
 namespace VaxisModel.Props.C10Shutdown
 open VaxisModel.Model.Conc VaxisModel.Lemmas.ConcShutdown VaxisModel.Lemmas.ConcMeasure VaxisModel.Lemmas.ConcInv
   VaxisModel.Lemmas.ConcFlag
 
-/-- **Variant.** Every label a scheduler may pick — a step of the parser goroutine, of the input
-goroutine (either arm of its `select`), of any caller of `Close`/`Suspend`, the terminal's reply to a
-written DA1 query, the application receiving an event — strictly lowers `mu`, in every state. -/
+/-- **Variant.** Every label a scheduler may pick — a step of the parser goroutine, of an input
+goroutine (any arm of its `select`, either arm of a blocking post), of any caller of
+`Close`/`Suspend` (either arm of `WaitClose`), the terminal's reply to a written DA1 query, the
+application receiving an event — strictly lowers `mu`, in every state. -/
 theorem variant_decreases (s s' : SSys) (l : SLabel) (hl : l.sched = true) (h : snext s l = some s') : mu s' < mu s :=
   mu_decreases s s' l hl h
 
@@ -61,31 +65,62 @@ theorem not_at_rest_enabled (s : SSys) (h : s.quiescent = false) : ∃ l s', l.s
 
 /-- **Shutdown completes, all runs.** From a state satisfying the invariant, every run of scheduler
 labels (every interleaving, of any length) stays inside the invariant and is bounded by the
-variant; whenever it reaches a state of rest — as every maximal run does — all callers of `Close` and
-`Suspend` have returned; if the session is suspended the parser goroutine and the input goroutine
-are done; if it is closed, `chQuit` has been closed exactly once and the session is suspended. -/
+variant; whenever it reaches a state of rest — as every maximal run does —
+* all callers of `Close` and `Suspend` have returned (whatever the queue holds, whoever consumes,
+  whichever goroutine the call runs on);
+* if the session is suspended the parser goroutine is done, and the input goroutine is done or
+  `postBlocked`: inside a blocking post with the queue full, the application not receiving and `Close`
+  not completed — the application's next receive releases it; likewise the input goroutines of earlier
+  sessions;
+* if the session is closed, `chQuit` has been closed exactly once, the session is suspended and
+  every input goroutine is done. -/
 theorem shutdown_completes (s s' : SSys) (ls : List SLabel) (hinv : Inv s) (hl : ∀ l ∈ ls, l.sched = true)
     (h : srun s ls = some s') :
     Inv s' ∧ ls.length + mu s' ≤ mu s ∧
     (s'.quiescent = true →
-      sumBy fUnret s'.callers = 0 ∧ (s'.suspendedFlag = true → s'.ppc = .done ∧ s'.ipc = .done) ∧
-      (s'.closedFlag = true → s'.quitCloses = 1 ∧ s'.suspendedFlag = true)) := by
+      sumBy fUnret s'.callers = 0 ∧
+      (s'.suspendedFlag = true → s'.ppc = .done ∧ (s'.ipc = .done ∨ postBlocked s' s'.ipc)) ∧
+      (∀ o ∈ s'.olds, o.ipc = .done ∨ postBlocked s' o.ipc) ∧
+      (s'.closedFlag = true → s'.quitCloses = 1 ∧ s'.suspendedFlag = true ∧ s'.ipc = .done ∧ ∀ o ∈ s'.olds, o.ipc = .done)) := by
   have hinv' := inv_sched_run ls s s' hl hinv h
   exact ⟨hinv', sched_run_bounded ls s s' hl h, fun hq => rest_is_done s' hinv' hq⟩
 
-/-- In the vocabulary of `SSys.final`: after `Close` was called (the flag is set, or a caller of
-`Close` is present), every maximal run ends in a final state — `Close` returned for every caller,
-parser goroutine done, input goroutine done — with `chQuit` closed once. -/
+/-- `Suspend` with an application that receives (or a queue with room): at rest nothing of the
+library is left — the parser goroutine and every input goroutine are done. -/
+theorem suspend_leaves_nothing (s s' : SSys) (ls : List SLabel) (hinv : Inv s) (hl : ∀ l ∈ ls, l.sched = true)
+    (h : srun s ls = some s') (hrest : s'.quiescent = true) (hs : s'.suspendedFlag = true)
+    (hc : s'.consumer = true ∨ s'.queueLen < s'.qcap) :
+    s'.ppc = .done ∧ s'.ipc = .done ∧ ∀ o ∈ s'.olds, o.ipc = .done := by
+  obtain ⟨_, _, hdone⟩ := shutdown_completes s s' ls hinv hl h
+  obtain ⟨_, h2, h3, _⟩ := hdone hrest
+  have nb : ∀ i, ¬ postBlocked s' i := by
+    intro i ⟨k, _, h4, h5, _⟩
+    rcases hc with hc | hc
+    · simp [hc] at h4
+    · omega
+  obtain ⟨hp, hi⟩ := h2 hs
+  refine ⟨hp, ?_, ?_⟩
+  · rcases hi with hi | hi
+    · exact hi
+    · exact absurd hi (nb _)
+  · intro o ho
+    rcases h3 o ho with hi | hi
+    · exact hi
+    · exact absurd hi (nb _)
+
+/-- In the vocabulary of `SSys.final`: after `Close` was called, every maximal run ends in a final
+state — `Close` returned for every caller, parser goroutine done, every input goroutine done — with
+`chQuit` closed once. No hypothesis on the queue or on the consumer. -/
 theorem close_completes (s s' : SSys) (ls : List SLabel) (hinv : Inv s) (hl : ∀ l ∈ ls, l.sched = true)
     (h : srun s ls = some s') (hrest : s'.quiescent = true) (hclosed : s'.closedFlag = true) :
     s'.final = true ∧ s'.quitCloses = 1 := by
   obtain ⟨_, _, hdone⟩ := shutdown_completes s s' ls hinv hl h
-  obtain ⟨h1, h2, h3⟩ := hdone hrest
-  obtain ⟨hq, hs⟩ := h3 hclosed
-  obtain ⟨hp, hi⟩ := h2 hs
+  obtain ⟨h1, h2, _, h4⟩ := hdone hrest
+  obtain ⟨hq, hs, hi, ho⟩ := h4 hclosed
+  obtain ⟨hp, _⟩ := h2 hs
   refine ⟨?_, hq⟩
   simp only [SSys.final, Bool.and_eq_true, beq_iff_eq, List.all_eq_true]
-  refine ⟨⟨hp, hi⟩, fun c hc => ?_⟩
+  refine ⟨⟨⟨hp, hi⟩, ho⟩, fun c hc => ?_⟩
   have := sumBy_zero_all fUnret s'.callers h1 c hc
   obtain ⟨pc, k⟩ := c
   cases pc <;> simp [fUnret] at this ⊢
@@ -108,36 +143,49 @@ theorem close_called_completes (s s' : SSys) (ls : List SLabel) (hinv : Inv s) (
   have : s'.closedFlag = true := by cases hf : s'.closedFlag <;> simp [hf] at hflag ⊢
   exact close_completes s s' ls hinv hl h hrest this
 
-/-- Non-vacuity of the invariant: a running session, capacity 8 with 3 events queued, input pending
-(a key whose handling posts an event, half of an escape sequence), nobody consuming. -/
-example : Inv { qcap := 8, queueLen := 3, consumer := false, inbuf := [some 1, none], ppc := .reading } :=
-  inv_running 8 3 false [some 1, none] (by decide) (Or.inr (by decide))
+/-- Non-vacuity of the invariant, in F53's and F13's regions at once: capacity 2 and the queue full,
+nobody consuming, input pending, the input goroutine in the middle of a post, a kill signal and a
+SIGWINCH pending, an input goroutine of an earlier session still alive. -/
+example : Inv { qcap := 2, queueLen := 2, consumer := false, inbuf := [some 1, none], ppc := .reading, ipc := .posting 1,
+                seqs := [.seq 1, .seq 1], killSig := true, winchSig := true, olds := [⟨.posting 2, [.seq 1, .eof]⟩] } :=
+  inv_running 2 2 false [some 1, none] (.posting 1) [.seq 1, .seq 1] true true [⟨.posting 2, [.seq 1, .eof]⟩] (by decide)
 
 /-! ### histories: any number of Suspend/Resume cycles -/
 
-/-- The histories of a session: scheduler labels at any time; new terminal input at any time (as long
-as there is a consumer or room); `Close` from any goroutine at any time except while the main
-goroutine is inside a bare `Suspend`; `Suspend` and `Resume` by the sequential main goroutine (when
-nobody is inside `Close`/`Suspend`; `Resume` before `Close`). -/
+/-- The histories of a session: scheduler labels at any time; terminal input and SIGWINCH at any
+time; `Close` from any goroutine, a kill signal, a panic of an input goroutine at any time except
+while the main goroutine is inside a bare `Suspend` (`vx.suspended` is a plain field: the library
+does not synchronise `Suspend` with a concurrent `Close`); `Suspend` and `Resume` by the sequential
+main goroutine (when nobody is inside `Close`/`Suspend`; `Suspend` with no kill signal pending;
+`Resume` before `Close`, as soon as `Suspend` has returned — the previous input goroutine may still
+be alive). -/
 inductive SessionReach (s0 : SSys) : SSys → Prop
   | init : SessionReach s0 s0
   | sched {s s'} (l : SLabel) : SessionReach s0 s → l.sched = true → snext s l = some s' → SessionReach s0 s'
-  | input {s s'} (u : Option Nat) : SessionReach s0 s → snext s (.termInput u) = some s' → RoomOK s' → SessionReach s0 s'
-  | close {s s'} : SessionReach s0 s → snext s .callClose = some s' → sumBy fSusp s.callers = 0 → RoomOK s' → SessionReach s0 s'
-  | suspend {s s'} : SessionReach s0 s → snext s .callSuspend = some s' → idle s → RoomOK s' → SessionReach s0 s'
+  | input {s s'} (u : Option Nat) : SessionReach s0 s → snext s (.termInput u) = some s' → SessionReach s0 s'
+  | winch {s s'} : SessionReach s0 s → snext s .winch = some s' → SessionReach s0 s'
+  | signal {s s'} : SessionReach s0 s → snext s .signal = some s' → sumBy fSusp s.callers = 0 → SessionReach s0 s'
+  | panic {s s'} : SessionReach s0 s → snext s (.input .panic) = some s' → sumBy fSusp s.callers = 0 → SessionReach s0 s'
+  | panicOld {s s'} (j : Nat) : SessionReach s0 s → snext s (.old j .panic) = some s' → sumBy fSusp s.callers = 0 → SessionReach s0 s'
+  | close {s s'} : SessionReach s0 s → snext s .callClose = some s' → sumBy fSusp s.callers = 0 → SessionReach s0 s'
+  | suspend {s s'} : SessionReach s0 s → snext s .callSuspend = some s' → idle s → s.killSig = false → SessionReach s0 s'
   | resume {s s'} : SessionReach s0 s → snext s .resume = some s' → idle s → s.closedFlag = false → SessionReach s0 s'
 
 /-- **Any number of cycles.** The invariant holds in every state of every history of a session
 that starts in an invariant state (e.g. a running session, `inv_running`): so `shutdown_completes`
-applies after any number of Suspend/Resume cycles, frames of input and `Close` calls — every
-`Suspend` and every `Close` returns under every schedule and leaves no library goroutine behind. -/
+applies after any number of Suspend/Resume cycles, any input, signals and `Close` calls — every
+`Suspend` and every `Close` returns under every schedule. -/
 theorem session_invariant (s0 s : SSys) (h0 : Inv s0) (h : SessionReach s0 s) : Inv s := by
   induction h with
   | init => exact h0
   | sched l _ hl hn ih => exact inv_sched _ _ l hl ih hn
-  | input u _ hn hr ih => exact inv_termInput _ _ u ih hn hr
-  | close _ hn hs hr ih => exact inv_callClose _ _ ih hn hs hr
-  | suspend _ hn hi hr ih => exact inv_callSuspend _ _ ih hn hi hr
+  | input u _ hn ih => exact inv_termInput _ _ u ih hn
+  | winch _ hn ih => exact inv_winch _ _ ih hn
+  | signal _ hn hs ih => exact inv_signal _ _ ih hn hs
+  | panic _ hn hs ih => exact inv_input _ _ _ ih hn (fun _ => hs)
+  | panicOld j _ hn hs ih => exact inv_old _ _ j _ ih hn (fun _ => hs)
+  | close _ hn hs ih => exact inv_callClose _ _ ih hn hs
+  | suspend _ hn hi hk ih => exact inv_callSuspend _ _ ih hn hi hk
   | resume _ hn hi ho ih => exact inv_resume _ _ ih hn hi ho
 
 /-- Non-vacuity: two Suspend/Resume cycles and a Close, each run to rest by the scheduler that lets
@@ -145,44 +193,35 @@ the library run ahead of the caller; every call returns with the goroutines done
 example : session .libFirst 200 { inbuf := [some 1, some 1] } ['S', 'R', 'S', 'R', 'C'] =
     ["S:ret,done", "R", "S:ret,done", "R", "C:ret,done"] := by decide
 
+/-- A `Resume` while the previous input goroutine is still blocked in a post (queue full, nobody
+receiving): it joins `olds`; the next `Suspend` returns, the following `Close` returns and ends all
+of them. -/
+example : session .callerFirst 300 { qcap := 1, queueLen := 1, consumer := false, inbuf := [some 1, some 1, some 1] }
+      ['S', 'R', 'S', 'C'] = ["S:ret,alive", "R", "S:ret,alive", "C:ret,done"] := by decide
+
 /-! ### F33 repaired: `chQuit` is closed at most once, unconditionally -/
 
 /-- In every state reachable — by any labels whatsoever: any number of concurrent `Close` callers,
-`Close` on the input goroutine's signal arm, Suspend/Resume at any time — from a state in which
-nobody has called `Close` yet, `close(vx.chQuit)` has run at most once. -/
+`Close` on an input goroutine's signal arm or panic path, Suspend/Resume at any time — from a state
+in which nobody has called `Close` yet, `close(vx.chQuit)` has run at most once. -/
 theorem quit_closed_once (s0 s : SSys) (h1 : s0.callers = []) (h2 : s0.closedFlag = false) (h3 : s0.quitCloses = 0)
-    (h4 : ∀ c, s0.ipc ≠ .closing c) (h : SReachable s0 s) : s.quitCloses ≤ 1 ∧ s.panicked = false := by
-  have hf := (flagInv_reachable s0 s (flagInv_init s0 h1 h2 h3 h4) h).flag
+    (h : SReachable s0 s) : s.quitCloses ≤ 1 ∧ s.panicked = false := by
+  have hf := (flagInv_reachable s0 s (flagInv_init s0 h1 h2 h3) h).flag
   have hb := b2n_le s.closedFlag
   have : s.quitCloses ≤ 1 := by omega
   refine ⟨this, ?_⟩
   simp only [SSys.panicked, decide_eq_false_iff_not]
   omega
 
-/-! ### what remains false of the code -/
+/-! ### F13 and F53 repaired: the former stuck states -/
 
-/-- Full statement: whenever somebody has called `Close`, from every reachable state internal
-moves alone lead to a final state.  False of the current code: F53 (nobody consumes and the queue
-has no room) and F13 (`Close` on the input goroutine) — exactly the two hypotheses of `Inv` beyond
-the sequential main goroutine. -/
-def shutdown_completes_full : Prop :=
-  ∀ (s0 s : SSys), s0.callers = [] → SReachable s0 s → s.callers ≠ [] →
-    ∃ ls s', (∀ l ∈ ls, l.internal = true) ∧ srun s ls = some s' ∧ s'.final = true
-
-/-- The full statement fails: F53's witness run reaches a state from which no internal label is
-ever enabled again, with `Close` still waiting. -/
-theorem shutdown_completes_full_fails : ¬ shutdown_completes_full := by
-  intro hall
-  obtain ⟨s, hrun, hnf, hstuck⟩ := VaxisModel.Witness.F53.close_never_returns
-  have hreach : SReachable VaxisModel.Witness.F53.s0 s := srun_reachable _ _ _ _ .init hrun
-  have hc : s.callers ≠ [] := by
-    have := VaxisModel.Witness.F53.reaches_stuck_state
-    simp only [hrun, Bool.and_eq_true, beq_iff_eq] at this
-    rw [this.1.1.2]; simp
-  obtain ⟨ls, s', hint, hr, hfin⟩ := hall _ s rfl hreach hc
-  cases ls with
-  | nil => simp [srun] at hr; subst hr; rw [hnf] at hfin; exact absurd hfin (by simp)
-  | cons l t => rw [hstuck l t (hint l (by simp))] at hr; exact absurd hr (by simp)
+/-- The schedules of the two recorded findings still lead to the states that used to be stuck
+(`Witness/F13`, `Witness/F53`); both states satisfy the invariant, so by `shutdown_completes` EVERY
+maximal run from them ends with `Close` returned and nothing left. -/
+theorem former_stuck_states_complete :
+    (match srun Witness.F13.s0 Witness.F13.witness with | some s => decide (Inv s) | none => false) = true ∧
+    (match srun Witness.F53.s0 Witness.F53.witness with | some s => decide (Inv s) | none => false) = true := by
+  constructor <;> decide
 
 /-! ### the source facts the theorems need -/
 
@@ -217,5 +256,36 @@ theorem resume_must_clear :
     session .libFirst 200 { resumeClears := false } ['S', 'R', 'S'] = ["S:ret,done", "R", "S:ret,alive"] ∧
     session .libFirst 200 { resumeClears := false } ['S', 'R', 'C'] = ["S:ret,done", "R", "C:ret,alive"] ∧
     session .libFirst 200 {} ['S', 'R', 'C'] = ["S:ret,done", "R", "C:ret,done"] := by decide
+
+/-! ### the repaired shapes (F13, F53) -/
+
+def noLog (l : List String) : List String := l.filter fun x => !x.startsWith "log."
+
+/-- `Parser.WaitClose` is the loop that takes `closed` or discards a sequence (`drain`), and on a
+closed channel waits for `closed`; `Parser.Close` sends the close signal; `emit` is the bare send the
+LTS blocks on; after its loop `run` emits `EOF`, closes the channel and sends `closed` — the steps
+`emitEOF`, `signalClosed` of the LTS. -/
+theorem waitclose_drains :
+    Gen.Conc.shape_Parser_WaitClose = ["for {", "select {", "case <-p.closed:", "return", "case _, ok := <-p.sequences:",
+      "if !ok {", "<-p.closed", "return", "}", "}", "}"] ∧
+    Gen.Conc.shape_Parser_Close = ["p.close <- true"] ∧
+    Gen.Conc.shape_Parser_emit = ["p.sequences <- seq"] ∧
+    Gen.Conc.shape_Parser_runTail.drop 6 = ["p.emit(EOF{})", "close(p.sequences)", "p.closed <- true"] := by decide +kernel
+
+/-- The input goroutine: deferred `recover → Close → panic` (label `panic`); `select` over the parser
+arm — it returns when the channel is closed (`!ok`) and on `EOF`, otherwise handles the sequence —,
+the SIGWINCH arm (one blocking post, label `winch`) and the kill arm (`Close; return`, label `kill`). -/
+theorem input_loop_leaves_on_closed_channel :
+    Gen.Conc.shape_inputLoop = ["defer func {", "if err := recover(); err != nil {", "vx.Close()", "panic(err)", "}", "}",
+      "for {", "select {", "case seq, ok := <-parser.Next():", "if !ok {", "return", "}", "switch seq := seq.(type) {",
+      "case ansi.EOF:", "return", "default:", "vx.handleSequence(seq)", "parser.Finish(seq)", "}",
+      "case <-vx.chSigWinSz:", "atomicStore(&vx.resize, true)", "vx.PostEventBlocking(Redraw{})",
+      "case <-vx.chSigKill:", "vx.Close()", "return", "}", "}"] := by decide +kernel
+
+/-- `PostEventBlocking` is a `select` over the send and `<-vx.chQuit` (label `quit`), without a
+`default`; `PostEvent` is the `select` with `default` (logging aside). -/
+theorem blocking_post_selects_quit :
+    noLog Gen.Conc.shape_PostEventBlocking = ["select {", "case vx.queue <- ev:", "case <-vx.chQuit:", "}"] ∧
+    noLog Gen.Conc.shape_PostEvent = ["select {", "case vx.queue <- ev:", "return", "default:", "}"] := by decide +kernel
 
 end VaxisModel.Props.C10Shutdown
